@@ -6,3 +6,7 @@ Definition pf_page := Eval vm_compute in failing page_prop cases_page.
 Print pf_page.
 Definition pf_partition := Eval vm_compute in failing partition_ok cases_partition.
 Print pf_partition.
+Definition pf_query := Eval vm_compute in failing partition_ok cases_query.
+Print pf_query.
+Definition pf_qorder := Eval vm_compute in failing order_ok cases_qorder.
+Print pf_qorder.
